@@ -164,7 +164,7 @@ CLAIMED = {
   technique="Lean 4 proof (FileM programs under a capacity environment; rollback and enlarge-first theorems) + capacity sweep on the real savers",
   ref="DESIGN.md §5 C19"),
  "C06": dict(
-  text="Container models as programs over the file object (Model/Container/<X>M.lean; the ties compare the complete call log with the real code on fobj.FaultFile): asf_/iff_/dsf_/ogg_/mp4_/id3_/ape_save_raises_only, _save_io_faults, _save_ok_means_written and the same for delete (Props/C06_<X>.lean) - with arbitrary injected faults only MutagenError or the documented ValueError leaves the entry point, and a normal return without short reads leaves the complete new state. Lean 4 theorems (Props/C06.lean) over FileM programs in ARBITRARY fault environments (any exception at any file-object call, short reads, "
+  text="Load as a program over the file object (Props/C06_<X>Load.lean, DESIGN.md 9.16): asf_/dsf_/iff_/mp4_/flac_/id3_loadM_refines (fault-free, every byte string: the pure load, file unchanged), <x>_load_raises_only, <x>_load_io_faults, <x>_load_leaves_file_untouched for ASF, DSF, IFF, Ogg, MP4, FLAC, ID3 and APEv2 files; the short-read-as-end-of-file reads are stated exactly. Container models as programs over the file object (Model/Container/<X>M.lean; the ties compare the complete call log with the real code on fobj.FaultFile): asf_/iff_/dsf_/ogg_/mp4_/id3_/ape_save_raises_only, _save_io_faults, _save_ok_means_written and the same for delete (Props/C06_<X>.lean) - with arbitrary injected faults only MutagenError or the documented ValueError leaves the entry point, and a normal return without short reads leaves the complete new state. Lean 4 theorems (Props/C06.lean) over FileM programs in ARBITRARY fault environments (any exception at any file-object call, short reads, "
        "finite capacity): primitives_raise_only - resize_file/move_bytes/insert_bytes/delete_bytes/resize_bytes/read_full/get_size raise nothing but "
        "the injected exception, ENOSPC, ValueError (argument check) or IOError (read_full) by a compositional Raises judgement (one rule per "
        "construct incl. try/except, try/finally, convert_error); primitives_ok_means_no_fault - a normal return means no injected fault fired "
@@ -208,7 +208,7 @@ CLAIMED = {
   technique="Lean 4 proof (splice/offset arithmetic, tree render/walk inversion, parent-size refinement, byte-level save theorem) + byte-for-byte model/implementation correspondence",
   ref="DESIGN.md §5 C10"),
  "C12": dict(
-  text="Lean 4 theorems (Props/C12.lean, 39 theorems) over a model of every ID3 spec kind, of frame read/write and of the frame-flag handling, "
+  text="Props/C12_More.lean closes the three gaps named below: read_write_rva / rva_write_domain (RVASpec for every value the writer accepts), id3_nested_tag_roundtrip (CHAP/CTOC of any depth), v22_table_plain, v22_pic_/v22_lnk_/v22_rva_upgrade_roundtrip, v22_crm_dropped. Lean 4 theorems (Props/C12.lean, 39 theorems) over a model of every ID3 spec kind, of frame read/write and of the frame-flag handling, "
        "instantiated on the frame table REGENERATED from mutagen/id3/_frames.py on every run (Generated/Id3Table.lean, 176 classes): "
        "frame_roundtrip / frame_roundtrip_v23 - for every class of the generated table and all valid field values, readFrame(writeFrame vals) = vals "
        "(v2.4 and v2.3 configuration), by induction over the spec list from read_write_spec (one lemma per spec kind: Latin-1/UTF-8/UTF-16 LE/BE "
@@ -224,7 +224,7 @@ CLAIMED = {
   technique="Lean 4 proof (per-spec-kind and per-frame round-trip by induction over the regenerated frame table) + model/implementation correspondence + independent ID3 decoder",
   ref="DESIGN.md §5 C12"),
  "C13": dict(
-  text="Lean 4 theorems (Props/C13.lean) over the model of the date logic of update_to_v23/update_to_v24: date_carried - for every year 1..9999, "
+  text="Props/C13_Id3v1.lean and C13_Convert.lean: id3v1_make_layout, id3v1_roundtrip, id3v1_text_representable, id3v1_parse_total (ID3v1 codec with the regenerated genre table); v23_output_only_v23_keys, v23_join_split and instance round trips for update_to_v23 / update_to_v24 over the regenerated frame lists; tie id3convert_tie. Lean 4 theorems (Props/C13.lean) over the model of the date logic of update_to_v23/update_to_v24: date_carried - for every year 1..9999, "
        "month, day, hour (incl. 0) and minute (incl. 0) the recording date is written to TYER (4 digits), TDAT (DDMM) and TIME (HHMM) with exactly "
        "those digits; v23_v24_roundtrip - converting to v2.3 and back gives the same year/month/day/hour/minute, seconds 0; partial_dates. "
        "Partial: byte-level validity of v2.3/v2.4 output (version byte, plain vs syncsafe sizes, Latin-1/UTF-16 only, no v2.4-only frame ids), "
@@ -235,7 +235,7 @@ CLAIMED = {
   technique="Lean 4 proof (digit-level date conversion, kernel-decided formatting tables) + independent ID3v2.3/ID3v1 decoder on the real output",
   ref="DESIGN.md §5 C13"),
  "C16": dict(
-  text="Keyed policy layer kdictmixin_refines with instances mp4_refines, asf_refines, easymp4_refines (+ easymp4_set_native, easymp4_foreign_atoms_untouched: the Easy view and the native tags stay consistent), deviations as witnesses (asf_unhashable_key_witness, mp4_set_struct_error_witness, easymp4_attribute_error_witness); tie dict_tie_x (Props/C16_*.lean). Lean 4 theorems (Props/C16.lean): dictmixin_refines - proved ONCE and generically: if a store's four primitives (keys/getitem/setitem/"
+  text="Keyed policy layer kdictmixin_refines with instances mp4_refines, asf_refines, easymp4_refines (+ easymp4_set_native, easymp4_foreign_atoms_untouched: the Easy view and the native tags stay consistent), easyid3_refines_partial (53 single-frame keys) with easyid3_set_native / easyid3_foreign_frames_untouched / easyid3_keys_total, deviations as witnesses (easyid3_replaygain_coupling_witness, easyid3_glob_case_witness, asf_unhashable_key_witness, mp4_set_struct_error_witness, easymp4_attribute_error_witness); tie dict_tie_x (Props/C16_*.lean). Lean 4 theorems (Props/C16.lean): dictmixin_refines - proved ONCE and generically: if a store's four primitives (keys/getitem/setitem/"
        "delitem) refine a reference dictionary under an abstraction function, every DictMixin-derived operation (contains, values, items, clear, "
        "pop, popitem, update, setdefault, get, len) returns what the reference returns and commutes with the abstraction; proxy_refines, "
        "ape_refines (case-insensitive store with the APEv2 key rule, invalid key -> KeyError, spelling kept), vc_refines (VCommentDict: list of "
